@@ -320,6 +320,7 @@ func (cmd *mainCmd) Run(args []string) error {
 		}
 
 		var out bytes.Buffer
+		engine.Parenthesize(f)
 		if err := formatNode(&out, fset, f); err != nil {
 			log.Printf("%s: failed: %v", filename, err)
 			errors = append(errors, fmt.Errorf("failed to rewrite %q: %v", filename, err))
